@@ -6,6 +6,7 @@
    lemmas (check_c02_sound / _complete, check_c03_sound / _complete) in CheckProofs.v. *)
 From Coq Require Import List ZArith Bool Sorting.Mergesort Orders.
 From LMBase Require Import IEEE.
+From LMDisc Require DiscModel.
 Import ListNotations.
 
 Definition zhit : Type := (Z * Z)%type.      (* position, score bits *)
@@ -72,3 +73,14 @@ Definition first_missing (scores : list Z) (thr : Z) (hits : list zhit) : option
 Definition first_spurious (scores : list Z) (thr : Z) (hits : list zhit) : option zhit :=
   let q := qual scores thr in
   find (fun h => negb (existsb (zhit_eqb h) q)) hits.
+
+(* The executable side conditions under which property C08's main clause is a theorem for
+   binary32 (coq/disc: finite non-wildcard cells, conditioning predicate on the factor, at
+   most 16384 rows, magnitude bound), evaluated by the driver to qualify a lost hit:
+   when this is true the scanner theorems C02_concrete_scan_well_conditioned /
+   C03_concrete_max_well_conditioned apply to the case (DiscBridge.wc_input_sound). *)
+Definition wc_input (K : nat) (pssm : list (list F32.t)) (factor : F32.t) : bool :=
+  forallb (fun row => forallb F32.is_finite (DiscModel.nonwild K row)) pssm &&
+  DiscModel.well_conditioned pssm factor &&
+  (Z.of_nat (length pssm) <=? 16384)%Z &&
+  F32.le (DiscModel.cond_A pssm) (F32.of_Z_exp 1 126).
